@@ -813,11 +813,11 @@ class Gen(object):
             return self.g_new()
         return {'op': 'npfunc', 'slot': k, 'f': self.rng.choice(['negative', 'absolute', 'square', 'floor', 'sign'])}
 
-    def g_shallow(self):
+    def g_shallow(self, fs=('copy', 'T', 'flatten', 'fxp_like', 'reshape')):
         k, _ = self.pick()
         if k is None:
             return self.g_new()
-        f = self.rng.choice(['copy', 'T', 'flatten', 'fxp_like', 'reshape'])
+        f = self.rng.choice(list(fs))
         op = {'op': 'shallow', 'slot': k, 'f': f}
         if f == 'fxp_like' and self.rng.random() < 0.7:
             o = self.w.slots[self.cands()[k]].obj
@@ -1208,6 +1208,8 @@ class Gen(object):
                 add(4, self.g_provoke)
             add(3, self.g_chain2)
             add(1, self.g_probe_shift, 'derive_bits')
+            if prop == 'C20':
+                add(2, lambda: self.g_shallow(('flatten', 'fxp_like')), 'derive_copy')
             if prop == 'C02':
                 add(4, self.g_shallow)
                 add(3, self.g_big_store)
